@@ -34,3 +34,42 @@ def dispatch_iterates_a_snapshot(chk: Check, repo: Repo, fi: FuncInfo, attr: str
         calls_element = isinstance(lp.target, ast.Name) and any(isinstance(c, ast.Call) and ((isinstance(c.func, ast.Name) and c.func.id == lp.target.id) or (isinstance(c.func, ast.Attribute) and isinstance(c.func.value, ast.Name) and c.func.value.id == lp.target.id)) for b in lp.body for c in ast.walk(b))
         ok = snap or not calls_element or not mutating
         chk.ob("dispatch-iterates-a-snapshot-of-the-registry", fi.site(lp), ok, f"{fi.qualname}: `for {ast.unparse(lp.target)} in {ast.unparse(it)}` calls {what}; the registry is shrunk by {mutating}" + ("" if ok else " — a callback that unregisters itself during the dispatch makes the next one miss this event"), key=key)
+
+
+def kdf_parameters(chk: Check, repo: Repo, entries: list[str]) -> None:
+    """Key derivations agree with the oracle table (oracles/kdf.json): PBKDF2-HMAC with the tabled hash, output length,
+    iteration count and salt; the password is turned into octets with the tabled codec (latin-1 for IP Secure
+    passwords — a utf-8 encoding gives other octets for every character above U+007F, hence other keys and MACs than
+    the peer computes).  A structural agreement of constants, not a statement about the cipher."""
+    import json
+    from pathlib import Path
+    table = json.loads((Path(__file__).resolve().parents[2] / "oracles" / "kdf.json").read_text())
+    enc_alias = {"latin-1": "latin-1", "latin1": "latin-1", "iso-8859-1": "latin-1", "iso8859-1": "latin-1", "latin_1": "latin-1", "l1": "latin-1", "utf-8": "utf-8", "utf8": "utf-8"}
+    for ref in entries:
+        want = table[ref]
+        mod, name = ref.split(":")
+        f = repo.func(mod, name)
+        chk.unit(f)
+        ks = [c for c in ast.walk(f.node) if isinstance(c, ast.Call) and call_name(c) == "PBKDF2HMAC"]
+        got: dict = {}
+        if len(ks) == 1:
+            kw = {k.arg: k.value for k in ks[0].keywords}
+            alg = kw.get("algorithm")
+            got["hash"] = call_name(alg).split(".")[-1] if isinstance(alg, ast.Call) else None
+            got["length"] = repo.fold(kw["length"], f.module, None) if "length" in kw else None
+            got["iterations"] = repo.fold(kw["iterations"], f.module, None) if "iterations" in kw else None
+            salt = repo.fold(kw["salt"], f.module, None) if "salt" in kw else None
+            got["salt"] = salt.decode("ascii", "replace") if isinstance(salt, bytes) else None
+        ders = [c for c in ast.walk(f.node) if isinstance(c, ast.Call) and isinstance(c.func, ast.Attribute) and c.func.attr == "derive" and len(c.args) == 1]
+        enc = "?"
+        if len(ders) == 1:
+            a = ders[0].args[0]
+            if isinstance(a, ast.Call) and isinstance(a.func, ast.Attribute) and a.func.attr == "encode":
+                e0 = a.args[0] if a.args else next((k.value for k in a.keywords if k.arg == "encoding"), None)
+                ev_ = repo.fold(e0, f.module, None) if e0 is not None else "utf-8"
+                enc = enc_alias.get(str(ev_).lower(), str(ev_))
+            elif isinstance(a, ast.Name) and a.id in {x.arg for x in f.node.args.args}:
+                enc = None  # octets are passed in
+        got["encoding"] = enc
+        exp = {k: want[k] for k in ("hash", "length", "iterations", "salt", "encoding")}
+        chk.ob("key-derivation-parameters-agree-with-the-specification", f.site(), got == exp, f"{name}: {got}; required {exp}", key=f"kdf|{name}")
